@@ -22,6 +22,7 @@ struct Driver {
     t: i64,
     steps: usize,
     terminal: bool,
+    persists: usize,
 }
 
 impl Driver {
@@ -41,6 +42,29 @@ impl Driver {
         evt["price"] = json!(100 + (self.t % 7));
         self.kit.set_env(env);
         self.kit.set_close_mode(ev);
+        // Persist (a stutter of EngineCore): now and then the parts of the engine state that have a JSON form -
+        // connectivity, trading state, the instrument states - are stored and restored before the event is
+        // processed (state shipped to a replica / kept across a restart). A stored and restored state is the
+        // same state, so the step that follows must be the step of the specification from the state BEFORE.
+        if self.t % 4 == 1 {
+            let st = &mut self.kit.engine.state;
+            let r = catch(|| -> Result<(), String> {
+                let text = serde_json::to_string(&st.connectivity).map_err(|e| format!("serialise connectivity: {e}"))?;
+                st.connectivity = serde_json::from_str(&text).map_err(|e| format!("deserialise connectivity: {e}"))?;
+                let text = serde_json::to_string(&st.trading).map_err(|e| format!("serialise trading state: {e}"))?;
+                st.trading = serde_json::from_str(&text).map_err(|e| format!("deserialise trading state: {e}"))?;
+                let text = serde_json::to_string(&st.instruments).map_err(|e| format!("serialise instrument states: {e}"))?;
+                st.instruments = serde_json::from_str(&text).map_err(|e| format!("deserialise instrument states: {e}"))?;
+                Ok(())
+            });
+            let failed = match r { Ok(Ok(())) => None, Ok(Err(e)) => Some(e), Err(p) => Some(format!("panic: {p}")) };
+            if let Some(e) = failed {
+                self.terminal = true;
+                self.out.line(&json!({"a": "Step", "ev": ev, "env": env, "anomaly": format!("store / restore of the engine state failed: {e}")}));
+                return;
+            }
+            self.persists += 1;
+        }
         let _ = self.kit.links.take();
         self.kit.script.lock().disconnects.clear();
         let engine = &mut self.kit.engine;
@@ -66,7 +90,7 @@ impl Driver {
 
 fn main() {
     let args = Args::parse();
-    let mut d = Driver { kit: Kit::new(TradingState::Disabled), out: Out::create(args.req("out")), t: 0, steps: 0, terminal: false };
+    let mut d = Driver { kit: Kit::new(TradingState::Disabled), out: Out::create(args.req("out")), t: 0, steps: 0, terminal: false, persists: 0 };
     match args.cmd.as_str() {
         "run" => {
             for scn in read_ndjson(args.req("scenarios")) {
@@ -97,5 +121,5 @@ fn main() {
         c => usage(&format!("unknown command {c}")),
     }
     let n = d.out.finish();
-    println!("{}", json!({"lines": n, "steps": d.steps}));
+    println!("{}", json!({"lines": n, "steps": d.steps, "persists": d.persists}));
 }
